@@ -19,7 +19,8 @@ class C05(LineCheck):
     pid = "C05"
     coq_targets = ["theories/Timer/HeapModel.vo", "theories/Timer/HeapSpec.vo", "theories/Timer/HeapProofs.vo",
                    "theories/Timer/RadixModel.vo", "theories/Timer/RadixSpec.vo", "theories/Timer/RadixProofs.vo",
-                   "theories/Gen/LeafTimer.vo", "theories/Timer/RadixLink.vo", "theories/Timer/RadixHazard.vo"]
+                   "theories/Gen/LeafTimer.vo", "theories/Timer/RadixLink.vo", "theories/Timer/RadixHazard.vo",
+                   "theories/Base/CSem.vo", "theories/Gen/LeafHeap.vo", "theories/Timer/HeapLink.vo"]
     corr_name = ("correspondence timer_drv(iv_timer.c) = extracted HeapModel (rc, num_timers, rat_depth, numobjs, slot array walked "
                  "through the real radix tree, every back index, fire order) and radix_drv(iv_timer.c) = extracted RadixModel "
                  "(the same plus nodes reachable from timer_root, ratnode callocs, ratnode frees after every op; iv_timer_deinit)")
@@ -56,6 +57,10 @@ class C05(LineCheck):
         spec.loader.exec_module(mod)
         with vlib.Lock(os.path.join(vlib.COQ, ".lock")):
             err = mod.main()
+            if not err:
+                # index arithmetic and guards of pull_up / push_down / register / unregister / run_timers (Gen/LeafHeap.v,
+                # linked to Timer/HeapModel.v by Timer/HeapLink.v)
+                err = mod.main(None, ["LeafHeap.v"]) or getattr(mod, "LAST_ERRORS", {}).get("LeafHeap.v")
         return ("leaf translator failed (tie broken): " + err) if err else None
 
     def proofs(self, ctx):
